@@ -6,6 +6,7 @@
 // the real admin route PUT /on_haproxy_error.  Pure executor: no verdicts.
 //
 //	c18h run <scripts.json> <outdir>
+//	c18h reload <script.json> <outdir>      transactions while the flows are being reloaded (see reload.go)
 //
 // scripts.json / events / ops: see cmd/c18.  Supported: reset, conc (reqfw, reqcq, endcq, reqsel, metrics), fwstorm, cqstorm,
 // hammer.  Not supported: sched (the gates of cmd/c18 belong to the engine-level harness).
@@ -102,6 +103,8 @@ func sink(point string, kv ...any) {
 			procsOf[g] = append(procsOf[g], key)
 		}
 		procMu.Unlock()
+	case "hdm.initialized", "hdm.published":
+		reloadHook(point)
 	case "spoe.reply":
 		for i := 0; i < 3; i++ {
 			runtime.Gosched()
@@ -227,8 +230,8 @@ func freePort() int {
 }
 
 func main() {
-	if len(os.Args) != 4 || os.Args[1] != "run" {
-		vh.Die("usage: c18h run <scripts.json> <outdir>")
+	if len(os.Args) != 4 || (os.Args[1] != "run" && os.Args[1] != "reload") {
+		vh.Die("usage: c18h run|reload <scripts.json> <outdir>")
 	}
 	outdir, _ := filepath.Abs(os.Args[3])
 	root := filepath.Join(outdir, "root")
@@ -268,7 +271,16 @@ func main() {
 	vh.Quiet()
 	verifhook.SetSink(sink)
 	var scripts []Script
-	vh.ReadJSON(os.Args[2], &scripts)
+	var rscript RScript
+	if os.Args[1] == "reload" {
+		vh.ReadJSON(os.Args[2], &rscript)
+		if len(rscript.Histories) == 0 {
+			return
+		}
+		scripts = []Script{{Files: versionFiles(rscript.Histories[0].V0)}}
+	} else {
+		vh.ReadJSON(os.Args[2], &scripts)
+	}
 	if len(scripts) == 0 {
 		return
 	}
@@ -300,6 +312,10 @@ func main() {
 	g.mux = http.NewServeMux()
 	g.dm.SetHandleRoutes(g.mux)
 	g.handler = routing.Handler(g.dm)
+	if os.Args[1] == "reload" {
+		runReload(g, &rscript, outdir)
+		return
+	}
 
 	var uid atomic.Int64
 	for si := range scripts {
